@@ -9,6 +9,7 @@ RULE = ("seeded histories (5-40 ops, addition/doubling/negation/equality "
         "even group order) and 5% named curves; non-trivial = >= 2 "
         "state-changing operations or >= 1 fault fired; distinct = distinct "
         "sha256 of the executed operation/outcome log")
+HISTORY_DIFF = {"quick": 120, "thorough": 1000}
 REQUIRED_PROBES = {"quick": [], "thorough": []}
 
 
